@@ -441,6 +441,11 @@ def spec_c06(tier, seed):
             Cond('c06_credit', 'c_grant_sequence', parts=gparts, timeout=400),
             Cond('c06_credit', 'c_channel_requester_credit', parts=cparts, timeout=400),
             Cond('c06_credit', 'c_forwarding', timeout=300),
+            # the credit a responder works with is the initial_request_n of the REASSEMBLED request: the endpoint harnesses
+            # above feed unfragmented requests, so that a REQUEST_STREAM / REQUEST_CHANNEL which arrives in fragments keeps
+            # its initial_request_n (symbolic, full width) is this lemma of C03, which C06 therefore depends on (seed C06-4)
+            Cond('c03_fragments', 'c_span_pipeline', parts=[{'cls': c, 'fmax': 100000 if q else 16777215} for c in (3, 4)],
+                 timeout=400 if q else 1200),
         ],
         explanation='real responder endpoints (request-stream and request-channel) and a real channel requester over each of '
                     'the library stream sources (generator, async generator, reactivex / Rx plain observable, reactivex / Rx '
@@ -452,7 +457,8 @@ def spec_c06(tier, seed):
         bounds=['M in %s elements; 3 credit values each in [1, 2^31-1] (symbolic)' % (list(ms),),
                 'REQUEST_N delivery: same read as the request / after quiescence / two back to back',
                 'c_grant_sequence: 6 (thorough also 10) REQUEST_N frames of one symbolic value g, all pending together (burst) or one per quiescent point, M = 4 (thorough also 8, 3)',
-                '6 stream sources x {stream responder, channel responder, channel requester}; complete-on-last or separate completion for generator sources'],
+                '6 stream sources x {stream responder, channel responder, channel requester}; complete-on-last or separate completion for generator sources',
+                'fragmented REQUEST_STREAM / REQUEST_CHANNEL: initial_request_n preserved by fragmentation and reassembly for all lengths in [0, 2*size+4] and fragment sizes 64..1e5 (quick) / 2^24-1 (thorough) (c03_fragments.c_span_pipeline, cls 3 and 4)'],
         outside=['more than 3 independent credit values, more than 10 REQUEST_N frames, more than %d elements, publishers written by applications' % max(max(ms), 8)],
         functions=['rsocket.streams.stream_from_generator.StreamFromGenerator.request', 'rsocket.streams.stream_from_generator.StreamFromGenerator.queue_next_n',
                    'rsocket.streams.stream_from_generator.StreamFromGenerator._generate_next_n', 'rsocket.streams.stream_from_generator.StreamFromGenerator.feed_subscriber',
